@@ -528,7 +528,9 @@ int main(int argc, char **argv)
       int rc;
       if (ns && ns[0]) snprintf(pfx, sizeof pfx, "%s.%s", ns, px ? px : "");
       else snprintf(pfx, sizeof pfx, "%s", px ? px : "");
-      rc = gd_include_affix(D, file, parent, pfx[0] ? pfx : NULL, sx, GD_CREAT);
+      /* the new fragment gets the parent's byte sex (the API default is the native one) */
+      rc = gd_include_affix(D, file, parent, pfx[0] ? pfx : NULL, sx,
+          GD_CREAT | (gd_endianness(D, parent) & (GD_BIG_ENDIAN | GD_LITTLE_ENDIAN)));
       op(rc, D);
     } else if (!strcmp(tok[0], "ADD")) {
       do_add(D);
